@@ -565,6 +565,10 @@ func mkConv(x Val, t types.Type) Val {
 			}
 		}
 	}
+	// string([]byte(s)) is s, []byte(string(b)) is (a copy of) b
+	if in, ok := x.(*ConvV); ok && in.X.Type() != nil && types.Identical(in.X.Type().Underlying(), t.Underlying()) && isByteSliceOrString(t) && isByteSliceOrString(in.Type()) {
+		return in.X
+	}
 	v := &ConvV{X: x}
 	v.typ = t
 	v.key = typeStr(t) + "(" + x.Key() + ")"
